@@ -270,7 +270,7 @@ def hHeCond (s : HHeState α) : Prop :=
 instance (s : HHeState α) : Decidable (hHeCond s) := by unfold hHeCond; exact inferInstance
 
 /-- result of the H/He solve; `abort` stands for `cmac_error("Too many iterations …")`;
-`niter` = number of completed loop bodies; `chmin0` = true iff some body saw `ch < 0` -/
+`niter` = number of completed loop bodies; `chNeg` = true iff some body saw `ch < 0` -/
 structure HHeOut (α : Type) where
   h0 : α
   he0 : α
